@@ -104,6 +104,7 @@ type Result struct {
 	Faults     map[string]int   `json:"faults,omitempty"` // fault kinds that actually fired
 	Probes     map[string]int   `json:"probes,omitempty"` // reach probes hit
 	Stats      map[string]int64 `json:"stats,omitempty"`  // free counters (dont_care, inconclusive, ops ...)
+	Volatile   map[string]int64 `json:"volatile,omitempty"` // real measurements (allocation); not part of the determinism comparison
 	Interleave string           `json:"interleave,omitempty"`
 	SimNs      int64            `json:"sim_ns"`
 	Ties       int              `json:"ties"`
